@@ -172,7 +172,7 @@ var anyType = reflect.TypeOf((*any)(nil)).Elem()
 
 // c12Build constructs the Go value and its model.
 func c12Build(s GSpec) gBuilt {
-	if s.E == nil && s.K != "static" && s.K != "casemap" && s.K != "samename" && s.K != "named" {
+	if s.E == nil && s.K != "static" && s.K != "casemap" && s.K != "samename" && s.K != "named" && s.K != "shared" {
 		return c12BuildLeaf(s)
 	}
 	if s.K == "samename" {
@@ -189,6 +189,31 @@ func c12Build(s GSpec) gBuilt {
 		m := vObj("N", vInt(5), "S", vStr("s"), "F", vFloat(1.5), "B", vBool(true), "U", vInt(200), "D", vInt(1500000000), "L", vArr(vInt(1), vInt(2)), "P", vInt(7),
 			"M", vObj("k", vStr("v")), "Éa", vInt(3), "Ωb", vStr("w"))
 		return gBuilt{reflect.ValueOf(v), m, true, false}
+	}
+	if s.K == "shared" {
+		// finite values whose parts share memory: the same map and slice twice, a slice that holds a shorter slice of
+		// its own array, rows that point back to the first row
+		m := map[string]any{"k": true}
+		in := []any{1, 2}
+		sl := []any{7, 8, nil}
+		sl[2] = sl[:1]
+		type row struct {
+			N      int
+			Parent *row
+		}
+		rows := make([]row, 3)
+		for i := range rows {
+			rows[i].N = i
+			if i > 0 {
+				rows[i].Parent = &rows[0]
+			}
+		}
+		v := map[string]any{"twice": []any{m, m, in, in}, "selfslice": sl, "rows": rows}
+		r0 := vObj("N", vInt(0), "Parent", vNil())
+		model := vObj("twice", vArr(vObj("k", vBool(true)), vObj("k", vBool(true)), vArr(vInt(1), vInt(2)), vArr(vInt(1), vInt(2))),
+			"selfslice", vArr(vInt(7), vInt(8), vArr(vInt(7))),
+			"rows", vArr(r0, vObj("N", vInt(1), "Parent", r0), vObj("N", vInt(2), "Parent", r0)))
+		return gBuilt{reflect.ValueOf(v), model, true, false}
 	}
 	if s.K == "casemap" {
 		// keys that differ in case only, and keys spelled like keywords of the language
@@ -308,7 +333,7 @@ func c12Specs(depth int) []GSpec {
 	for _, l := range levels {
 		all = append(all, l...)
 	}
-	all = append(all, GSpec{K: "static"}, GSpec{K: "casemap"}, GSpec{K: "samename"}, GSpec{K: "named"},
+	all = append(all, GSpec{K: "static"}, GSpec{K: "casemap"}, GSpec{K: "samename"}, GSpec{K: "named"}, GSpec{K: "shared"}, GSpec{K: "dotsite"},
 		GSpec{K: "slice", N: 2, E: &GSpec{K: "named"}}, GSpec{K: "ptr", E: &GSpec{K: "named"}}, GSpec{K: "anymap", N: 1, E: &GSpec{K: "named"}})
 	return all
 }
@@ -368,7 +393,43 @@ func c12Data(b gBuilt) map[string]any {
 	return map[string]any{"d": v, "other": 1}
 }
 
+// c12DotSite: one access expression meets values of different make one after the other (a struct whose field is
+// reached through the lower-cased alias, then a map that has both spellings as keys), in the passes of a loop and in two
+// renders of one loaded page.
+func c12DotSite() (ok bool, sig, expected, observed string) {
+	type named struct{ Name string }
+	rows := []any{named{"S"}, map[string]any{"name": "lower", "Name": "upper"}, named{"T"}, map[string]any{"Name": "only"}, map[string]any{"name": "l2", "Name": "u2"}}
+	expected = "[S][lower][T][only][l2] for every way of reaching .name"
+	for _, src := range []string{"@each(r in rows)[{{ r.name }}]@end", `@each(r in rows)[{{ r["name"] }}]@end`, "@for(i = 0; i < 5; i++)[{{ rows[i].name }}]@end"} {
+		o := runString(src, map[string]any{"rows": rows})
+		if o.Kind != KOut || o.Out != "[S][lower][T][only][l2]" {
+			return false, "access-depends-on-earlier-values-at-the-same-expression", expected + " (" + src + ")", o.String()
+		}
+	}
+	t := Tree{Dir: "t", Ext: ".tw", Files: map[string]string{"index.tw": "[{{ d.name }}]"}}
+	t.write()
+	tpl, lo := t.load()
+	if lo.Kind != KOut {
+		return false, "load-failed", expected, lo.String()
+	}
+	got := ""
+	for _, d := range rows {
+		o := render(tpl, "index", map[string]any{"d": d})
+		got += o.Out
+		if o.Kind != KOut {
+			got += o.String()
+		}
+	}
+	if got != "[S][lower][T][only][l2]" {
+		return false, "access-depends-on-earlier-renders-of-the-page", expected + " (five renders of [{{ d.name }}])", got
+	}
+	return true, "", expected, got
+}
+
 func c12Check(cs c12Case) (ok bool, sig, expected, observed string) {
+	if cs.Spec.K == "dotsite" {
+		return c12DotSite()
+	}
 	b := c12Build(cs.Spec)
 	data := c12Data(b)
 	keep := c12Data(c12Build(cs.Spec)) // an independent, equal copy
@@ -445,6 +506,17 @@ func c12Run(c *Ctx) {
 		for _, sp := range specs[b:end] {
 			if c.Expired() {
 				return
+			}
+			if sp.K == "dotsite" {
+				cs := c12Case{Spec: sp}
+				c.Trace(cs)
+				okd, sig, exp, obs := c12Check(cs)
+				c.Evals(1)
+				c.Case(true)
+				if !okd {
+					c.Report(sig, 1, cs, exp, obs, "")
+				}
+				continue
 			}
 			built := c12Build(sp)
 			var paths []c12Path
